@@ -444,6 +444,12 @@ func c07AbortedNeighbour(r *core.Run, idx int, rng *rand.Rand) {
 	sp.AuthnRequestsSigned = ""
 	mustRegister(e.W, sp, "appA")
 	kind := []string{"authn", "logout", "query"}[idx%3]
+	// the storage call during which the first client goes away: the service-provider lookup, or the read of the
+	// signing key (which the metadata and certificate endpoints need as well)
+	abortOp := []string{"GetEntityByID", "GetResponseSigningKey"}[(idx/3)%2]
+	if abortOp == "GetResponseSigningKey" {
+		kind = []string{"authn", "query", "metadata", "certificate"}[(idx/6)%4]
+	}
 	u := randUser(rng, fmt.Sprintf("U_MK%dx", idx), false)
 	e.W.AddUser(u)
 	tagA, tagB := fmt.Sprintf("abortA%d", idx), fmt.Sprintf("abortB%d", idx)
@@ -452,7 +458,7 @@ func c07AbortedNeighbour(r *core.Run, idx int, rng *rand.Rand) {
 	aInside, bInside := make(chan struct{}), make(chan struct{})
 	var onceA, onceB sync.Once
 	e.W.Before = func(_ context.Context, tag, op string, occ int) {
-		if op != "GetEntityByID" {
+		if op != abortOp {
 			return
 		}
 		switch tag {
@@ -482,6 +488,10 @@ func c07AbortedNeighbour(r *core.Run, idx int, rng *rand.Rand) {
 		case "logout":
 			l := conformantLogout(rng, sp)
 			return (env.Req{Method: "POST", Path: env.PathSLO, Body: spsim.FormBody("SAMLRequest", spsim.B64([]byte(l.XML(rng)))), Tag: tag, Ctx: ctx})
+		case "metadata":
+			return (env.Req{Path: env.PathMetadata, Tag: tag, Ctx: ctx})
+		case "certificate":
+			return (env.Req{Path: env.PathCert, Tag: tag, Ctx: ctx})
 		default:
 			q := conformantQuery(rng, sp, u.Username)
 			return (env.Req{Method: "POST", Path: env.PathAttr, Body: q.XML(rng), CT: "text/xml", Tag: tag, Ctx: ctx})
@@ -497,7 +507,7 @@ func c07AbortedNeighbour(r *core.Run, idx int, rng *rand.Rand) {
 	}
 	callB := e.Do(reqB)
 	<-done
-	class := "aborted_neighbour|" + kind
+	class := "aborted_neighbour|" + kind + "|" + abortOp
 	r.Eval(fmt.Sprintf("%s|%d", class, idx))
 	r.Count("aborted_neighbour_pairs", 1)
 	desc := map[string]any{"kind": kind, "first_request": callA.Describe()}
@@ -506,11 +516,17 @@ func c07AbortedNeighbour(r *core.Run, idx int, rng *rand.Rand) {
 		return
 	}
 	ok := callB.Accepted()
-	if kind != "authn" {
+	switch kind {
+	case "authn":
+	case "metadata":
+		ok = callB.D.Status == 200 && strings.Contains(string(callB.D.Body), "EntityDescriptor")
+	case "certificate":
+		ok = callB.D.Status == 200 && len(callB.D.Body) > 0
+	default:
 		ok = callB.D.Success()
 	}
 	if !ok {
-		r.Violate(core.Violation{Clause: "conformant_request_rejected_because_a_neighbour_was_aborted", Class: class, Reason: fmt.Sprintf("a conformant %s was not accepted (status %d %s) while another request of the same service provider was being aborted", kind, callB.D.Status, clipS(string(callB.D.Body), 160)), Workload: wl, Index: idx, Case: desc, Observed: callB.Describe()})
+		r.Violate(core.Violation{Clause: "conformant_request_rejected_because_a_neighbour_was_aborted", Class: class, Reason: fmt.Sprintf("a conformant %s was not accepted (status %d %s) while another request, whose client went away inside "+abortOp+", was being aborted", kind, callB.D.Status, clipS(string(callB.D.Body), 160)), Workload: wl, Index: idx, Case: desc, Observed: callB.Describe()})
 		return
 	}
 	r.Count("accepted_beside_aborted_neighbour", 1)
